@@ -171,8 +171,9 @@ func (ex *Exec) contractModKeys(fx *fnExec, c *Contract, callee *ssa.Function, k
 					} else if at, ok := ft.Underlying().(*types.Array); ok {
 						fx.keysOfElem(at.Elem(), keys)
 					} else {
-						for k := range layout(ft) {
+						for k, srt := range layout(ft) {
 							keys[fldKey(structName(cur), i, k)] = true
+							keySortHint[fldKey(structName(cur), i, k)] = ArraySort(IntSort, srt)
 						}
 					}
 				}
@@ -201,15 +202,16 @@ func (ex *Exec) contractModKeys(fx *fnExec, c *Contract, callee *ssa.Function, k
 				}
 			} else if callee.Pkg != nil {
 				if g, ok := callee.Pkg.Members[x.Name].(*ssa.Global); ok {
-					for k := range layout(g.Type().(*types.Pointer).Elem()) {
+					for k, srt := range layout(g.Type().(*types.Pointer).Elem()) {
 						keys[globKey(g, k)] = true
+						keySortHint[globKey(g, k)] = srt
 					}
 				}
 			}
 		}
 	}
 	res := callee.Signature.Results()
-	for i := 0; i < res.Len(); i++ {
+	for i := 0; i < res.Len() && (len(c.Modifies) > 0 || c.Allocates); i++ {
 		switch u := res.At(i).Type().Underlying().(type) {
 		case *types.Slice:
 			keys[allocKey] = true
